@@ -489,6 +489,7 @@ class Sim:
             self._exec_concrete_init(scope, body, env)
             init.update(env)
         self.x_sensitive = []
+        self.init_values = init
         for name, w in self.state_nets():
             base = name.split('[')[0] if '[' in name and name.split('[')[0] in self.d.nets and self.d.nets[name.split('[')[0]].kind == 'mem' else name
             n = self.d.nets[base]
@@ -516,6 +517,14 @@ class Sim:
                 raise VlogUnsupported('initial assignment target')
         else:
             raise VlogUnsupported('statement in initial block')
+
+    def _inits(self):
+        if not hasattr(self, 'init_values'):
+            init = {}
+            for scope, body in self.d.initials:
+                self._exec_concrete_init(scope, body, init)
+            self.init_values = init
+        return self.init_values
 
     # -- nets -----------------------------------------------------------------------------------
     def value(self, name):
@@ -553,8 +562,9 @@ class Sim:
                 v = self._comb_value(name)
             elif n.proc:
                 v = self.state[name]
-            elif n.kind in ('reg', 'integer') and n.init is not None:
-                v = z3.BitVecVal(n.init, n.width)  # variable that is only initialised
+            elif n.kind in ('reg', 'integer') and (n.init is not None or name in self._inits()):
+                iv = self._inits().get(name, n.init)
+                v = z3.BitVecVal(iv & ((1 << n.width) - 1), n.width)  # variable that is only initialised
             else:
                 v = z3.BitVecVal(0, n.width)      # undriven (reported by the driver obligations)
         finally:
